@@ -236,6 +236,10 @@ func init() {
 				{"x." + name, []string{good}},
 				{good, []string{good, "d." + other, "e." + name}},
 				{"2001:db8::1", []string{"f." + name}},
+				{good, []string{good, "192.0.2.7"}}, // an IP literal in a dNSName is a name whose right-most label is not a TLD
+				{"g." + name, []string{"g." + name, "2001:db8::1"}},
+				{good, []string{good, "localhost"}},
+				{"", []string{"h." + name, good, "10.0.0.1"}},
 			}
 			for _, t := range c18Instants(r) {
 				if t.Year() < 1951 || t.Year() > 2049 {
